@@ -23,6 +23,11 @@ C33  Region outlining and procedure extraction preserve behaviour.
      reachable from outline_region / outline_pragma_regions references ReturnStmt.
  R3  the call replaces the region (mapping keyed by the region node) and receives
      the arguments in the order of the new routine's dummies.
+ R6  the outlined routine sees the bounds the region saw: the dummies keep the
+     ``pointer`` / ``allocatable`` attribute of the host variable (a deferred-shape
+     array received as plain assumed shape starts at 1).
+ R7  internal procedures are extracted before regions are outlined (a call that
+     has moved into an outlined routine is no longer rewritten).
 Not decided: dataflow soundness inside the region (C26), intent overrides by pragma.
 """
 import ast
@@ -216,8 +221,60 @@ def run(ctx):
     (ctx.judge('R3', 'dummy list set from the same sequence') if ok else
      ctx.violation('R3', 'outline_region:dummies', f.where, 'new routine\'s dummy list is not the sequence used for the call'))
 
+    run_r67(ctx)
+
+
+def run_r67(ctx):
+    m = ctx.model
+    ctx.rule('R6', 'outline_region: the dummy of the outlined routine keeps the attributes that carry the bounds of the actual argument '
+                   '(pointer, allocatable are not reset to None)')
+    ctx.rule('R7', 'ExtractTransformation: for every routine internal procedures are extracted before regions are outlined')
+    f = m.get_function(OL, 'outline_region')
+    clones = [c for c in ast.walk(f.node) if isinstance(c, ast.Call) and isinstance(c.func, ast.Attribute) and c.func.attr == 'clone'
+              and any(k.arg == 'intent' for k in c.keywords)]
+    if not clones:
+        raise AnalysisError('outline_region: the type clone that sets the intent of the new dummies was not found')
+    for c in clones:
+        reset = sorted(k.arg for k in c.keywords if isinstance(k.value, ast.Constant) and k.value.value is None)
+        for attr in ('pointer', 'allocatable'):
+            inst = f'outline_region:dummy-type:{attr}'
+            if attr in reset:
+                ctx.violation('R6', inst, f'{OL}:{c.lineno}',
+                              f'the dummies of the outlined routine are created with `{attr}=None`: a deferred-shape {attr} array is then '
+                              f'received as an assumed-shape dummy whose lower bound is 1, whatever the bounds of the actual argument are -- '
+                              f'with allocate(w(0:n)) / w => work(0:n) the subscripts inside the region address other elements')
+            else:
+                ctx.judge('R6', inst)
+    E = m.get_class('loki/transformations/extract/__init__.py', 'ExtractTransformation')
+    n = 0
+    for name in ('transform_module', 'transform_file'):
+        g = E.function(name)
+        if g is None:
+            raise AnalysisError(f'ExtractTransformation.{name} vanished')
+        ext = [c.lineno for c in ast.walk(g.node) if isinstance(c, ast.Call) and X.call_name_of(c) == 'extract_internal_procedures']
+        out = [c.lineno for c in ast.walk(g.node) if isinstance(c, ast.Call) and X.call_name_of(c) == 'outline_pragma_regions']
+        if not ext or not out:
+            raise AnalysisError(f'ExtractTransformation.{name}: extraction / outlining calls not found')
+        n += 1
+        if max(ext) < min(out):
+            ctx.judge('R7', f'{name}: internals extracted before regions are outlined')
+        else:
+            ctx.violation('R7', f'ExtractTransformation.{name}:outline-before-extract', f'{g.module.relpath}:{min(out)}',
+                          'a region is outlined before the internal procedures of the routine are extracted: extract_internal_procedure only '
+                          'rewrites the calls left in the parent body, so a call to an internal procedure that has moved into the outlined '
+                          'routine never receives the host variables as arguments')
+    ctx.floor('R7', 'entry points of ExtractTransformation', n, 2)
+
 
 MUTANTS = [
+    Mutant('outlined-dummy-loses-pointer', OL, "type=local_var.type.clone(intent=intent, allocatable=None, target=None),",
+           "type=local_var.type.clone(intent=intent, allocatable=None, pointer=None, target=None),", expect=('R6', 'dummy-type:pointer')),
+    Mutant('outline-before-extract', 'loki/transformations/extract/__init__.py',
+           "        # Extract internal (contained) procedures into standalone ones\n        if self.extract_internals:\n            for routine in module.subroutines:\n                new_routines = extract_internal_procedures(routine)\n                module.contains.append(new_routines)\n\n",
+           "", also=[('loki/transformations/extract/__init__.py',
+                      "            for routine in module.subroutines:\n                new_routines = outline_pragma_regions(routine)\n                module.contains.append(new_routines)\n",
+                      "            for routine in module.subroutines:\n                new_routines = outline_pragma_regions(routine)\n                module.contains.append(new_routines)\n        if self.extract_internals:\n            for routine in module.subroutines:\n                new_routines = extract_internal_procedures(routine)\n                module.contains.append(new_routines)\n")],
+           expect=('R7', 'outline-before-extract')),
     Mutant('out-override-replaces-inferred', OL, "    region_out_args = (region_out_args - (pragma_in_args | pragma_inout_args)) | pragma_out_args",
            "    region_out_args = pragma_out_args or (region_out_args - (pragma_in_args | pragma_inout_args))", expect=('R4', 'override-not-per-variable')),
     Mutant('out-override-drops-inferred', OL, "    region_out_args = (region_out_args - (pragma_in_args | pragma_inout_args)) | pragma_out_args",
